@@ -70,11 +70,11 @@ fn kx_slice_copy_to_slice() {
 fn three() -> ([u8; 3], [u8; 3], usize, usize) {
     let (a, b): ([u8; 3], [u8; 3]) = (kani::any(), kani::any());
     let (la, lb): (usize, usize) = (kani::any(), kani::any());
-    kani::assume(la <= 3 && lb <= 3);
+    kani::assume(la <= 2 && lb <= 2);
     (a, b, la, lb)
 }
 
-// @ob props=C09,C12 tier=quick kind=Kbounded bound="two slices of 0..=3 bytes" timeout=1800 fns=Chain::copy_to_bytes,Buf::copy_to_bytes(&[u8])
+// @ob props=C09,C12 tier=thorough kind=Kbounded bound="two slices of 0..=2 bytes" timeout=3000 fns=Chain::copy_to_bytes,Buf::copy_to_bytes(&[u8])
 #[kani::proof]
 #[kani::unwind(8)]
 fn kx_chain_copy_to_bytes() {
@@ -94,7 +94,7 @@ fn kx_chain_copy_to_bytes() {
     core::mem::forget(r);
 }
 
-// @ob props=C09,C12 tier=quick kind=Kbounded bound="two slices of 0..=3 bytes, any limit" timeout=1800 fns=Take::copy_to_bytes,Take::advance,Take::remaining
+// @ob props=C09,C12 tier=thorough kind=Kbounded bound="two slices of 0..=2 bytes, any limit" timeout=3000 fns=Take::copy_to_bytes,Take::advance,Take::remaining
 #[kani::proof]
 #[kani::unwind(8)]
 fn kx_take_copy_to_bytes() {
@@ -113,7 +113,7 @@ fn kx_take_copy_to_bytes() {
     core::mem::forget(r);
 }
 
-// @ob props=C09,C13 tier=quick kind=Kbounded bound="two slices of 0..=3 bytes" expect="panic:(Take<.*copy_to_bytes|Take<.*advance|panic_advance|Chain<.*copy_to_bytes)" fns=Take::copy_to_bytes,Take::advance,Chain::copy_to_bytes
+// @ob props=C09,C13 tier=thorough kind=Kbounded bound="two slices of 0..=2 bytes" timeout=3000 expect="panic:(Take<.*copy_to_bytes|Take<.*advance|panic_advance|Chain<.*copy_to_bytes)" fns=Take::copy_to_bytes,Take::advance,Chain::copy_to_bytes
 #[kani::proof]
 #[kani::unwind(8)]
 fn kx_take_chain_beyond_remaining_panics() {
